@@ -451,3 +451,71 @@ Example ex_cget_trace_fails :
   | _ => False
   end.
 Proof. vm_compute. exact I. Qed.
+
+(* ------------------------------------------------------------------ *)
+(* Composition with C07 (builder "client"): ANY source                 *)
+(* ------------------------------------------------------------------ *)
+(* From here on the vocabulary is Model/Client.v / ClientSpec.v (blocks with
+   byte-string hashes, decoded reply families [world], the repaired
+   [fetch_blocks] / [attach], C07's [attach_faithful], [linked], [seqN]) and
+   Model/CacheClient.v: the caching client whose block getter is
+   [fetch_blocks repaired] on [w_blocks] and whose header getter is the same on
+   [w_headers], every call seeing its own -- arbitrary, possibly corrupted --
+   reply family. *)
+From Shovel Require Import Model.Client Model.ClientSpec Model.CacheClient Proofs.ClientP Proofs.C07P Proofs.CacheClientP.
+
+(* What the composition assumes about the getter, as statements: a reply the
+   getter rejects gives the cache nothing to store (and by
+   [cache_rejected_data_dropped] the blocks that come back with the error are
+   irrelevant); what it stores was accepted by blocks()/headers(). *)
+Theorem cached_getter_rejects : forall s l r,
+  (forall bs, fetch_blocks repaired s l r <> Ok bs) -> fetch_value (getter_outcome s l r) = None.
+Proof. exact getter_rejected. Qed.
+Print Assumptions cached_getter_rejects.
+
+Theorem cached_getter_accepts : forall s l r bs,
+  fetch_value (getter_outcome s l r) = Some bs -> fetch_blocks repaired s l r = Ok bs.
+Proof. exact getter_accepted. Qed.
+Print Assumptions cached_getter_accepts.
+
+(* The attach phase on cached blocks runs in place and keeps what it attached
+   when it fails half way; it SUCCEEDS exactly when Client.v's attach does,
+   with the same result: caching does not weaken a single check of C07 ... *)
+Theorem cached_attach_is_uncached_attach : forall p s l w bs bs',
+  attach repaired p s l w bs = Ok bs' <-> attach_p p s l w bs = (bs', true).
+Proof. exact attach_p_spec. Qed.
+Print Assumptions cached_attach_is_uncached_attach.
+
+(* ... and however far a failing attach phase gets, it leaves number, hash,
+   parent and header payload of every block of the shared segment alone *)
+Theorem cached_partial_attach_keeps_headers : forall p s l w bs bs' ok,
+  numbered s bs -> hashes_known bs -> attach_p p s l w bs = (bs', ok) -> map hdr bs' = map hdr bs.
+Proof. exact attach_p_hdr. Qed.
+Print Assumptions cached_partial_attach_keeps_headers.
+
+(* For every sequence of Gets through the caching client (any plans, ranges,
+   eviction choices) against ANY source: each successful result satisfies
+   C07's post-conditions ([validated], Model/CacheClient.v): exactly the
+   requested numbers; hash-linked with every hash known when headers or blocks
+   are fetched; the attach replies of THIS call passed the same checks as
+   without a cache and did to the base blocks exactly what C07's
+   [attach_faithful] says; and the base blocks are, header by header, those of
+   a reply that passed blocks()/headers() validation in this call or an
+   earlier one.  (The second component of each pair is the list of reply
+   families seen up to and including that call.) *)
+Theorem cached_get_validated : forall mx ops cl outs,
+  ccrun (new_cclient mx) ops = Some (cl, outs) ->
+  Forall2 (fun op_ws out => forall bs, out = Ok bs -> validated (fst op_ws) (snd op_ws) bs)
+          (combine ops (worlds_upto [] ops)) outs.
+Proof. exact ccrun_validated. Qed.
+Print Assumptions cached_get_validated.
+
+(* non-vacuity: C07's honest replies, twice through the caching client: the
+   second call is served from the cache and both results are C07's *)
+Example ex_cached_honest :
+  let op := mkCcop pl_hr 5 2 honest_hr [] in
+  match ccrun (new_cclient 3) [op; op] with
+  | Some (_, [Ok a; Ok b]) => Client.get pl_hr 5 2 honest_hr = Ok a /\ a = b
+  | _ => False
+  end.
+Proof. vm_compute. split; reflexivity. Qed.
